@@ -56,6 +56,24 @@ theorem published_payload_exact (P : Params) (arena : Arena) (key uri : Bytes) (
   rw [ht] at hk hdec
   exact ⟨kind, ct, hk, wantKind_supported hw, hct, hw, hdec⟩
 
+/-- Read with the assumption that makes a digest a name - the hash has no
+    collisions (stated here only for the algorithm at hand): if `blob` is the
+    byte string whose hash the digest records, a publish means that exactly
+    `blob` was received and that the stored file is its decompression. -/
+theorem published_is_the_named_blob (P : Params) (arena : Arena) (key uri : Bytes) (r : Resp)
+    (k payload : Bytes) (dg : Digest) (blob : Bytes)
+    (hd : digestParse key = some dg) (hblob : P.hash dg.algo blob = dg.checksum)
+    (hcf : ∀ a b, P.hash dg.algo a = P.hash dg.algo b → a = b)
+    (h : .publish k payload ∈ (fetchUnlinked P arena key uri r).effs) :
+    r.body = blob ∧ ∃ kind, detect blob .eof = some kind ∧ decompress P kind blob .eof = some payload := by
+  obtain ⟨_, _, _, _, dg', hd', hh⟩ := publish_only_if_digest_matches P arena key uri r k payload h
+  rw [hd] at hd'
+  cases hd'
+  have hb : r.body = blob := hcf _ _ (hh.trans hblob.symm)
+  obtain ⟨kind, _, hk, _, _, _, hdec⟩ := published_payload_exact P arena key uri r k payload h
+  rw [hb] at hk hdec
+  exact ⟨hb, kind, hk, hdec⟩
+
 /-- The file `fetchUnlinkedFile` returns is either one already in the arena
     under the same digest string, or the one just published; in the second case
     `Accept` lists everything that was checked. -/
